@@ -42,7 +42,7 @@ pub struct Ident {
     aead: AeadId,
     mode: ModeKind,
     /// recipient public key as it enters kem_context
-    pk_r: Vec<u8>,
+    pub pk_r: Vec<u8>,
     enc: Vec<u8>,
     info: Vec<u8>,
     psk: Vec<u8>,
